@@ -19,7 +19,9 @@ INV_DEPENDS = {
 
 # ------------------------------------------------------------------------------- structural checks
 def on_continue_arm_of(body, callee_suffix, bb, same_arg=None):
-    """bb is dominated by the Continue arm of `callee(..)?`; optionally arg index -> expected expr."""
+    """bb is dominated by the success arm of `callee(..)?` (or of a `match callee(..)`); optionally
+    arg index -> expected expr."""
+    from lib import on_ok_arm
     for c in body.calls():
         if not sfx(c.callee, callee_suffix):
             continue
@@ -27,16 +29,8 @@ def on_continue_arm_of(body, callee_suffix, bb, same_arg=None):
             idx, want = same_arg
             if strip_expr(body.expr(c.args[idx])) != want:
                 continue
-        for br in body.calls():
-            if br.callee.endswith("::branch") and br.args:
-                e = body.expr(br.args[0])
-                if e[0] == "call" and len(e) > 3 and e[3] is c and br.target is not None:
-                    info = body.switch_info(br.target)
-                    if info and info[3]:
-                        subject, targets, otherwise, names = info
-                        for v, n in names.items():
-                            if n == "Continue" and body.dominates(targets.get(v, otherwise), bb):
-                                return True
+        if on_ok_arm(body, c, bb):
+            return True
     return False
 
 
